@@ -1,44 +1,78 @@
 (* ConfTie.v - the regenerated tables (coq/gen/Gen_Conf.v) against the
-   hand-transcribed documentation (Conf/DocSpec.v).  Each lemma is a closed
-   computation: it stops compiling when a keyword, type, parser, flag, default,
-   step or constant of the sources no longer is what the manual pages say. *)
-From Robsd Require Import Conf.ConfDefs Conf.DocSpec.
+   hand-transcribed documentation (Conf/DocSpec.v) and the hand-typed list of
+   differences (Conf/DocExceptions.v).  Each lemma is a closed computation: it
+   stops compiling when a keyword, type, parser, flag, default, step or constant
+   of the sources no longer is what the manual pages say plus the listed exceptions. *)
+From Robsd Require Import Conf.ConfDefs Conf.DocSpec Conf.DocExceptions.
 From RobsdGen Require Import Gen_Conf.
 
 Definition gen_grammar (m : mode) : list grammar := t_grammar (tables_of m).
 
-Lemma tables_match_docs_robsd : canon (gen_grammar ROBSD) = doc_table ROBSD.
-Proof. vm_compute. reflexivity. Qed.
-Lemma tables_match_docs_cross : canon (gen_grammar ROBSD_CROSS) = doc_table ROBSD_CROSS.
-Proof. vm_compute. reflexivity. Qed.
-Lemma tables_match_docs_ports : canon (gen_grammar ROBSD_PORTS) = doc_table ROBSD_PORTS.
-Proof. vm_compute. reflexivity. Qed.
-Lemma tables_match_docs_regress : canon (gen_grammar ROBSD_REGRESS) = doc_table ROBSD_REGRESS.
-Proof. vm_compute. reflexivity. Qed.
+(* the code's table = the documented rows with the exceptions applied, up to the order of the rows; all five modes *)
+Lemma tables_match_as_built m : canon (gen_grammar m) = as_built_table m.
+Proof. destruct m; vm_compute; reflexivity. Qed.
 
-Lemma tables_match_docs_non_canvas m : m <> CANVAS -> canon (gen_grammar m) = doc_table m.
+Lemma as_built_is_canon m : as_built_table m = canon (as_built_rows m).
+Proof. destruct m; vm_compute; reflexivity. Qed.
+
+(* sorting exceptions by the name they speak about *)
+Fixpoint insert_exc (x : exception) (l : list exception) : list exception :=
+  match l with
+  | [] => [x]
+  | h :: t => if bytes_leb (exception_kw x) (exception_kw h) then x :: l else h :: insert_exc x t
+  end.
+Definition xcanon (l : list exception) : list exception := fold_right insert_exc [] l.
+
+(* THE LIST IS EXACTLY THE DIFFERENCE: computed from the documented and the regenerated table (rows only in one, rows of
+   the same name that differ) it is the hand-typed, annotated list - nothing is missing from it, nothing in it is idle *)
+Lemma exceptions_are_the_difference m :
+  xcanon (table_diff (doc_table m) (canon (gen_grammar m))) = xcanon (map snd (doc_exceptions m)).
+Proof. destruct m; vm_compute; reflexivity. Qed.
+
+Lemma exceptions_proper m : forallb (proper (doc_rows m)) (map snd (doc_exceptions m)) = true.
+Proof. destruct m; vm_compute; reflexivity. Qed.
+
+(* ... hence in NO mode is the code's table the documented one *)
+Lemma tables_match_docs_refuted m : canon (gen_grammar m) <> doc_table m.
 Proof.
-  destruct m; intros H; try contradiction (H eq_refl).
-  - exact tables_match_docs_robsd.
-  - exact tables_match_docs_cross.
-  - exact tables_match_docs_ports.
-  - exact tables_match_docs_regress.
+  intros H. pose proof (exceptions_are_the_difference m) as D. rewrite H in D.
+  destruct m; vm_compute in D; discriminate.
 Qed.
 
-(* D7: the canvas table of the code is the documented one plus a settable,
-   required robsddir *)
-Lemma tables_match_docs_canvas_partial :
-  canon (gen_grammar CANVAS) = insert_row canvas_extra_row (doc_table CANVAS).
-Proof. vm_compute. reflexivity. Qed.
-
+(* D7 in particular: the canvas table of the code has a settable, required robsddir the page does not have *)
 Lemma tables_match_docs_canvas_refuted :
   grammar_for_keyword (gen_grammar CANVAS) kw_robsddir <> None /\
   grammar_for_keyword (doc_table CANVAS) kw_robsddir = None /\
   canon (gen_grammar CANVAS) <> doc_table CANVAS.
 Proof.
-  split; [vm_compute; discriminate|]. split; [vm_compute; reflexivity|].
-  intros H. apply (f_equal (@length grammar)) in H. vm_compute in H. discriminate.
+  split; [vm_compute; discriminate|]. split; [vm_compute; reflexivity|]. apply tables_match_docs_refuted.
 Qed.
+
+(* the representation-only exceptions (class XC_representation) yield the same default value as the documented row:
+   an INTEGER row with { NULL } renders 0, as D_I32(0) does *)
+Definition same_default_b (d g : grammar) : bool :=
+  vtype_eqb (gr_type d) VT_INTEGER && vtype_eqb (gr_type g) VT_INTEGER
+  && match gr_default d, gr_default g with
+     | D_i32 0%Z, D_null | D_null, D_i32 0%Z => true
+     | _, _ => false
+     end.
+
+Lemma same_default_value_b E d g : same_default_b d g = true -> default_value E d = default_value E g.
+Proof.
+  unfold same_default_b, default_value. destruct (gr_type d); try discriminate. destruct (gr_type g); try discriminate.
+  destruct (gr_default d) as [| | |z|]; destruct (gr_default g) as [| | |z'|]; try discriminate;
+    try (destruct z; discriminate); try (destruct z'; discriminate); try reflexivity;
+    (destruct z as [|p|p]; try discriminate; reflexivity) || (destruct z' as [|p|p]; try discriminate; reflexivity).
+Qed.
+
+Lemma representation_exceptions_harmless m :
+  forallb (fun cx => match cx with
+                     | (XC_representation, X_replace g) =>
+                         existsb (fun d => beq (gr_kw d) (gr_kw g) && same_default_b d g) (doc_rows m)
+                     | (XC_representation, _) => false
+                     | _ => true
+                     end) (doc_exceptions m) = true.
+Proof. destruct m; vm_compute; reflexivity. Qed.
 
 (* every mode reads the same token table, argv template and constants *)
 Lemma token_table_same m : t_tokens (tables_of m) = token_table.
